@@ -26,6 +26,10 @@ EXTENDS Integers, Sequences, FiniteSets, TLC, Json
 (*   IN2 = struct{InA; InB}  INE = struct{InA}   (parameter objects only by embedding)    *)
 (*   OutA = struct{dig.Out; A *T1} OutB = struct{dig.Out; B *T0}  OUT2 = struct{OutA;OutB}*)
 (*   erS = a struct type with a value-receiver Error method (an error that is never nil)  *)
+(*   aT0 = [2]*T0   aV0 = [2]V0   aBig = [1<<62]struct{} (a legal, zero-size type)           *)
+(*   aPB = [1<<20]*[1<<45]byte   fnT = func() *T0   mpT = map[string]*T0   chT = chan *T0    *)
+(*   (ordinary types as far as dig is concerned: a key like any other; aBig and aPB only as  *)
+(*   parameters: String() prints cached values with fmt, 2^62 elements are the user's cost) *)
 Slices   == {"sT0", "sI0", "NS", "ssT0"}
 ElemOf(t) == CASE t = "sT0" -> "T0" [] t = "sI0" -> "I0" [] t = "NS" -> "T0" [] t = "ssT0" -> "sT0" [] OTHER -> t
 ErrorLike(t) == t \in {"err", "erS"}
@@ -217,8 +221,8 @@ NoOpts == [name |-> "", group |-> "", as |-> "", loc |-> "", cb |-> FALSE]
 
 Fld(x, t, n, op, g) == [x |-> x, ty |-> t, name |-> n, opt |-> op, grp |-> g]
 
-FieldTypesP == {"T0", "sT0", "IN1", "OUT1", "pIN1", "err", "int", "IN2"}
-FieldTypesR == {"T0", "sT0", "OUT1", "IN1", "pOUT1", "err", "NS", "ssT0", "erS", "OUT2"}
+FieldTypesP == {"T0", "sT0", "IN1", "OUT1", "pIN1", "err", "int", "IN2", "aT0", "aBig"}
+FieldTypesR == {"T0", "sT0", "OUT1", "IN1", "pOUT1", "err", "NS", "ssT0", "erS", "OUT2", "aT0"}
 NamesT  == {"", "n"}
 OptT    == {"", "true", "false", "yes"}
 GroupT  == {"", "g", "g ", "g,flatten", "g,soft", "g,bogus", ",flatten", "g,flatten,soft"}
@@ -236,7 +240,7 @@ Plain(t) == Item("plain", t, <<>>, "")
 
 ParamItems ==
   {Plain(t) : t \in {"T0", "I0", "sT0", "err", "int", "IN1", "pIN1", "OUT1", "pOUT1", "EPI", "EPO", "INOUT",
-                     "erS", "IN2", "INE", "OUT2"}}
+                     "erS", "IN2", "INE", "OUT2", "aT0", "aV0", "aBig", "aPB", "fnT", "mpT", "chT"}}
   \cup {Item("in", "", <<f>>, iu) : f \in FieldsP, iu \in {"", "true", "maybe"}}
   \cup {Item("in", "", <<f, g>>, iu) : f \in FieldsP2, g \in FieldsP2, iu \in {"", "true"}}
   \cup {Item("in", "", <<>>, "")}
@@ -246,7 +250,7 @@ ParamItems ==
 
 ResultItems ==
   {Plain(t) : t \in {"T0", "I0", "sT0", "NS", "int", "IN1", "pIN1", "OUT1", "pOUT1", "EPI", "EPO", "INOUT",
-                     "erS", "OUT2", "IN2"}}
+                     "erS", "OUT2", "IN2", "aT0", "aV0", "fnT", "mpT", "chT"}}
   \cup {Item("out", "", <<f>>, "") : f \in FieldsR}
   \cup {Item("out", "", <<f, g>>, "") : f \in FieldsR2, g \in FieldsR2}
   \cup {Item("out", "", <<>>, "")}
